@@ -224,7 +224,7 @@ pub fn generated_corpus() -> Vec<(String, String)> {
 }
 
 pub fn corpus() -> Vec<(String, String)> {
-    let mut out: Vec<(String, String)> = repo_tests::load("/repo/tests/stdout")
+    let mut out: Vec<(String, String)> = repo_tests::load(&format!("{}/tests/stdout", crate::subject::repo()))
         .into_iter()
         .map(|t| (format!("repo test {}::{}", t.file, t.name), t.src))
         .collect();
